@@ -129,6 +129,12 @@ def racing(draw, ctx):
 
 @st.composite
 def cases(draw, ctx):
+    if ctx.get("variant") == "pool":
+        # blocking pops (pop_wait / pop_timedwait, virtual timeouts) racing with pushes:
+        # the histories of gen/c07.py, judged for linearizability (no unit lost) and
+        # for the bounded return of empty-handed blocking pops (executor)
+        from gen.c07 import cases as c07cases
+        return draw(c07cases(ctx))
     if ctx.get("native"):
         return draw(phased_native(ctx))
     return draw(st.one_of(phased(ctx), racing(ctx)))
@@ -177,6 +183,9 @@ def render(case, ctx):
 
 def judge(text, res, ctx):
     import re
+    if "note kind=" in text:
+        from gen.c07 import judge as j07
+        return j07(text, res, ctx)
     m = re.search(r"expect timeouts=(\d+) successes=(\d+)", text)
     if m:
         to = res.stats.get("cond_timedout", 0)
@@ -186,6 +195,8 @@ def judge(text, res, ctx):
 
 
 def classify(text, res, ctx):
+    if "note kind=" in text:
+        return ["pool_blocking_pops"] + (["pool_pops_empty"] if stat(res, "pool_pops_empty") else [])
     out = ["racing" if "note racing" in text else "phased"]
     for k in ("cond_timedout", "cond_credit_retired", "signal_no_waiter"):
         if stat(res, k):
@@ -194,12 +205,14 @@ def classify(text, res, ctx):
 
 
 def nontrivial(text, res, ctx):
+    if "note kind=" in text:
+        return "ppop 1 3" in text or "ppop 1 4" in text or "ppop 1 5" in text
     return (stat(res, "cond_timedout") >= 1 and text.count("wait 0 0") >= 2 and
             (stat(res, "signals") + stat(res, "broadcasts")) >= 1)
 
 
 PLAN = {
-    "quick": [("coarse", 11, 500), ("san", 3, 150), ("native", 2, 150)],
-    "thorough": [("coarse", 6, 5000), ("fine", 6, 3000), ("san", 2, 1500), ("nopool", 1, 1000),
-                 ("native", 1, 1500)],
+    "quick": [("coarse", 9, 500), ("san", 2, 150), ("native", 2, 150), ("coarse", 2, 300, "pool"), ("san", 1, 150, "pool")],
+    "thorough": [("coarse", 5, 5000), ("fine", 5, 3000), ("san", 2, 1500), ("nopool", 1, 1000),
+                 ("native", 1, 1500), ("fine", 1, 3000, "pool"), ("san", 1, 2000, "pool")],
 }
